@@ -274,7 +274,7 @@ func mutantsPerCase(c *rp.Ctx, cs *mutCase) int {
 func describe(cs *mutCase) string {
 	var ops []string
 	for _, h := range cs.H {
-		ops = append(ops, fmt.Sprintf("%s(%d,%d%s)", h.O, h.A, h.B, h.C))
+		ops = append(ops, fmt.Sprintf("%s(%d,%d,%s)", h.O, h.A, h.B, h.C))
 	}
 	for _, y := range cs.Y {
 		ops = append(ops, fmt.Sprintf("%s(%s,%s,%d)", y.O, y.P, y.V, y.N))
